@@ -14,4 +14,5 @@ import Setec.Properties.C13
 import Setec.Properties.C16
 import Setec.Properties.C17
 import Setec.Properties.C19
+import Setec.Properties.C20
 import Setec.Properties.C18
